@@ -756,6 +756,10 @@ func (s *programState) makeAllotment(monetary *big.Int, items []parser.Allotment
 	}
 
 	if remainingAllotmentIndex != -1 {
+		// "remaining" stands for one minus the other portions: they cannot exceed one
+		if totalAllotment.Cmp(big.NewRat(1, 1)) == 1 {
+			return nil, InvalidAllotmentSum{ActualSum: *totalAllotment}
+		}
 		allotments[remainingAllotmentIndex] = new(big.Rat).Sub(big.NewRat(1, 1), totalAllotment)
 	} else if totalAllotment.Cmp(big.NewRat(1, 1)) != 0 {
 		return nil, InvalidAllotmentSum{ActualSum: *totalAllotment}
